@@ -171,7 +171,7 @@ pub fn c01(tier: Tier) -> PropSpec {
         rule: "generated ADFs (random syntax / random truth-table functions / propagation chains / cycles; \
                random labels, fact order, layout, sort mode) -> grounded() on native, biodivine, hybrid(+/- \
                pre-grounding), from_biodivine compared with the least fixpoint of the three-valued operator \
-               computed on truth tables (n<=7) or by local three-valued evaluation (large: n 10..40, a quarter 60..100 statements). \
+               computed on truth tables (n<=7) or by local three-valued evaluation (large: n 10..40, a quarter 60..100 statements; wide: 120..135, 250..262 and 500..530 statements). \
                Non-trivial: the fixpoint needs >= 3 rounds, or has both decided and undecided statements; \
                distinct by hash of (formulas, labels, layout, sort).",
         assumptions: vec![
@@ -192,6 +192,19 @@ pub fn c01(tier: Tier) -> PropSpec {
                 || {
                     (
                         gen::adf_case(prop_oneof![3 => gen::adf_large(10, 40, 8, 5), 1 => gen::adf_large(60, 100, 6, 4)].boxed(), LabelClass::Alnum),
+                        sort_strategy(),
+                    )
+                        .prop_map(|(adf, sort)| SemCase { adf, sort })
+                        .boxed()
+                },
+                |c: &SemCase, st| c01_check(c, st, true),
+            ),
+            Part::new(
+                "wide",
+                tier.pick(160, 2000),
+                || {
+                    (
+                        gen::adf_case(prop_oneof![2 => gen::adf_large(250, 262, 4, 3), 1 => gen::adf_large(120, 135, 5, 3), 1 => gen::adf_large(500, 530, 3, 3)].boxed(), LabelClass::Alnum),
                         sort_strategy(),
                     )
                         .prop_map(|(adf, sort)| SemCase { adf, sort })
